@@ -18,6 +18,7 @@
 -/
 import EasyMl.Lemmas.Dual
 import EasyMl.Props.C04
+import EasyMl.Lemmas.TapeChecked
 
 namespace EasyMl.C05
 open EasyMl EasyMl.Spec
@@ -110,6 +111,102 @@ example : Prog.WellScoped ([.var, .numPow 2 0, .real .cos 1, .arith .div 2 0] : 
 example : DivOK ([.var, .numPow 2 0, .real .cos 1, .arith .mul 2 0] : Prog R) := Or.inl rfl
 example {F : Type} [Field F] [RealFns F] :
     DivOK ([.var, .numPow 2 0, .real .cos 1, .arith .div 2 0] : Prog F) := DivOK.ofField _
+
+/-! ### statements behind the harness-side oracles, hypotheses discharged, closures -/
+
+/-- **Comparisons look at the number only** — for any two traces, whatever their derivative
+    components: `==` is the element type's `==` on the numbers, `partial_cmp` its `partial_cmp`
+    (and `< <= > >=`, the trait's default methods, are read off it). -/
+theorem cmp_eq_plain_cmp [NumOrd R] (a b : Dual R) :
+    a.eq b = NumOrd.eq a.number b.number ∧
+    a.partialCmp b = numPartialCmp a.number b.number ∧
+    ∀ da db : R, (⟨a.number, da⟩ : Dual R).eq ⟨b.number, db⟩ = a.eq b ∧
+      (⟨a.number, da⟩ : Dual R).partialCmp ⟨b.number, db⟩ = a.partialCmp b :=
+  ⟨rfl, rfl, fun _ _ => ⟨rfl, rfl⟩⟩
+
+example [NumOrd R] : (⟨3, 1⟩ : Dual R).eq ⟨3, 0⟩ = (Dual.constant 3 : Dual R).eq (Dual.constant 3) :=
+  rfl
+
+/-- **`clone_from` is `clone`**: whatever the destination held, afterwards it is the source —
+    number and derivative. -/
+theorem clone_from_eq_clone (dst src : Dual R) :
+    dst.cloneFrom src = src.clone ∧ dst.cloneFrom src = src :=
+  ⟨rfl, rfl⟩
+
+example : (⟨1, 4⟩ : Dual R).cloneFrom ⟨7, 3⟩ = ⟨7, 3⟩ := rfl
+
+/-- **The chain rule through user-supplied closures.**  `Trace::unary(fx, dfx)` and
+    `Trace::binary(fxy, dfx, dfy)` with arbitrary closures: the number is what `fx` / `fxy`
+    returned, the derivative is the operand's derivative times what `dfx` returned at the
+    operand's number, resp. `a'·dfx(a,b) + b'·dfy(a,b)` — the derivative the closures imply.
+    (Inside a program these are the instructions `.unary` / `.binary`, covered by `dual_eq_grad`
+    like every other instruction.) -/
+theorem user_closure_chain_rule (a b : Dual R) :
+    (∀ fx dfx : R → R, (a.unary fx dfx).number = fx a.number ∧
+      (a.unary fx dfx).derivative = a.derivative * dfx a.number) ∧
+    (∀ fxy dfx dfy : R → R → R, (a.binary b fxy dfx dfy).number = fxy a.number b.number ∧
+      (a.binary b fxy dfx dfy).derivative
+        = a.derivative * dfx a.number b.number + b.derivative * dfy a.number b.number) :=
+  ⟨fun _ _ => ⟨rfl, rfl⟩, fun _ _ _ => ⟨rfl, rfl⟩⟩
+
+/-- `forward_eq_reverse` for every program the generators' grammar can emit (`Prog.Emitted`,
+    `C04.generated_programs_valid`), over a field, reverse mode on a fresh tape: no hypothesis
+    is left.  At every result, for every input, reverse mode and forward mode report the same
+    derivative. -/
+theorem forward_eq_reverse_generated {F : Type} [Field F] [RealFns F] (p : Prog F)
+    (hp : Prog.Emitted p) (h : Nat) (env : Nat → F) :
+    ∃ w recs, Prog.exec h env p World.empty = (w, .ok recs) ∧
+      ∀ k, k < p.length →
+        match (getRec recs k).history with
+        | none => ∀ i, (getDual (Prog.execDual i env p) k).derivative = 0
+        | some _ =>
+          ∃ adj, (getRec recs k).derivatives w = .ok adj ∧
+            ∀ i, p.isInput i = true →
+              adj.getD (getRec recs i).index 0 = (getDual (Prog.execDual i env p) k).derivative :=
+  forward_eq_reverse p hp.wellScoped (DivOK.ofField p) h env World.empty Tape.WF_nil
+
+example : Prog.Emitted ([.var, .unary (fun x => x * x) (fun x => 2 * x) 0] : Prog R) :=
+  .snoc [.var] _ (.snoc [] _ .nil (by simp [Instr.operands])) (by simp [Instr.operands])
+
+/-! ### bounded integer element types (the `@ int trace` lines) -/
+
+open EasyMl.Num in
+/-- **Over a bounded integer type the wrapper's value-or-panic is the plain operator's** — the
+    statement behind the `@ int trace` self-check lines, as a theorem over the trace model
+    instantiated at checked arithmetic (`Model/TapeChecked.lean`; the operators are agent K's
+    `arithPlain t`).  For each of the twelve integer types, each of `+ - * /`, any two traces
+    whose fields are values:
+
+    * the number of `&a op &b`, and of `&a op &y` with a plain number, is `x op y` as the plain
+      operator evaluates it — the same value or the same panic kind —, and the number of `-a`
+      is that of plain `-x` (the code computes `0 - x`, which overflows exactly when `-x` does);
+    * the whole operation — number first, then the derivative by the rule of
+      trace_operations.rs, each step with the checked operators — is agent K's `traceBin` /
+      `traceScalar` / `traceNeg`, the model that property C19 ties to the implementation for
+      all twelve types: the operation's value, or its first panic.
+
+    The `@ f64` lines stay oracle-only (no Lean model of IEEE-754 arithmetic; the harness
+    compares with the documented formula in `f64` by `to_bits`). -/
+theorem trace_op_checked_eq_plain (t : IntTy) (op : BinOp) (a b : Num.Trace (Val t)) (y : Val t) :
+    (Dual.bin op (Dual.ofTrace a) (Dual.ofTrace b)).number.out
+      = (arithPlain t).bin op a.number b.number ∧
+    (Dual.binNum op (Dual.ofTrace a) (Chk.lift y)).number.out = (arithPlain t).bin op a.number y ∧
+    (Dual.neg (Dual.ofTrace a)).number.out = (arithPlain t).neg a.number ∧
+    (Dual.bin op (Dual.ofTrace a) (Dual.ofTrace b)).evaluated = traceBin (arithPlain t) op a b ∧
+    (Dual.binNum op (Dual.ofTrace a) (Chk.lift y)).evaluated = traceScalar (arithPlain t) op a y ∧
+    (Dual.neg (Dual.ofTrace a)).evaluated = traceNeg (arithPlain t) a := by
+  refine ⟨?_, ?_, ?_, Dual.bin_evaluated op a b, Dual.binNum_evaluated op a y,
+    Dual.neg_evaluated a⟩
+  · cases op <;> rfl
+  · cases op <;> rfl
+  · exact Chk.zero_sub a.number
+
+open EasyMl.Num in
+example : (Dual.bin .mul (Dual.ofTrace (⟨ofInt .i8 16, ofInt .i8 1⟩ : Num.Trace (Val .i8)))
+    (Dual.ofTrace ⟨ofInt .i8 8, ofInt .i8 0⟩)).evaluated.isOk = false ∧
+    (Dual.bin .mul (Dual.ofTrace (⟨ofInt .i8 15, ofInt .i8 1⟩ : Num.Trace (Val .i8)))
+    (Dual.ofTrace ⟨ofInt .i8 8, ofInt .i8 0⟩)).evaluated.isOk = true := by
+  decide
 
 /-- **The derivative component of a trace is the true derivative.**  Over ℝ, for a program
     regular at the input point, the trace of result `k` in the run seeded at input `i` carries the
